@@ -76,15 +76,44 @@ def load_known() -> list[dict]:
         return json.load(fdesc).get("findings", [])
 
 
-def match_known(viol: dict, known: list[dict], prop: str) -> dict | None:
-    for ent in known:
-        if ent.get("status") != "known" or ent.get("property") != prop:
-            continue
-        if ent.get("class") != viol.get("class"):
-            continue
-        sig = viol.get("sig", {})
-        if all(sig.get(k) == v for k, v in ent.get("signature", {}).items()):
-            return ent
+def _entry_applies(ent: dict, viol: dict, prop: str) -> bool:
+    if ent.get("status") != "known" or ent.get("property") != prop:
+        return False
+    cls = ent.get("class")
+    if isinstance(cls, list):
+        if viol.get("class") not in cls:
+            return False
+    elif cls != viol.get("class"):
+        return False
+    sig = viol.get("sig", {})
+    return all(sig.get(k) == v for k, v in ent.get("signature", {}).items())
+
+
+def match_known(viol: dict, known: list[dict], prop: str) -> list[dict] | None:
+    """Return the known-finding entries that together account for the violation, or None.
+
+    An entry matches on class (string or list) and on every key of its ``signature``.  An entry with
+    ``why_any`` covers the listed labels of the violation's ``sig["why"]`` (labels joined by "+": the
+    smallest set of already-known deviations that reproduces the observation); the violation is known
+    only if every label is covered by some applicable entry.
+    """
+    sig = viol.get("sig", {})
+    applicable = [ent for ent in known if _entry_applies(ent, viol, prop)]
+    if not applicable:
+        return None
+    plain = [ent for ent in applicable if "why_any" not in ent]
+    if plain:
+        return plain[:1]
+    parts = set(str(sig.get("why", "")).split("+"))
+    covered = set()
+    used = []
+    for ent in applicable:
+        hit = parts & set(ent["why_any"])
+        if hit:
+            covered |= hit
+            used.append(ent)
+    if parts and parts <= covered:
+        return used
     return None
 
 
@@ -300,10 +329,11 @@ def check_main(args) -> int:
         tainted = False
         had = False
         for viol in ln.get("violations", []):
-            ent = match_known(viol, known, prop)
-            if ent is not None:
-                kid = ent.get("id") or viol_key(viol)
-                known_obs[kid] = known_obs.get(kid, 0) + 1
+            ents = match_known(viol, known, prop)
+            if ents is not None:
+                for ent in ents:
+                    kid = ent.get("id") or viol_key(viol)
+                    known_obs[kid] = known_obs.get(kid, 0) + 1
                 tainted = True
                 continue
             if tainted:
